@@ -3,6 +3,7 @@ package sym
 import (
 	"fmt"
 	"go/types"
+	"strings"
 
 	"golang.org/x/tools/go/ssa"
 
@@ -171,6 +172,22 @@ func vndLoopPhis(fn string) int { return -1 }
 // vndRequire: a structural premise of an argument made in DESIGN.md; if it does not hold the check is inconclusive.
 func vndRequire(c bool, why string) {}
 
+// vndWatchdog runs f and reports whether it returned (natively: within 3 seconds; symbolically: unless it blocks
+// forever on a channel nobody can make ready).
+func vndWatchdog(f func()) bool {
+	done := make(chan struct{})
+	go func() {
+		defer close(done)
+		f()
+	}()
+	select {
+	case <-done:
+		return true
+	case <-time.After(3 * time.Second):
+		return false
+	}
+}
+
 // vndYield: a short pause (well below the clients' read timeout of the harnesses) that lets goroutines react.
 func vndYield() { time.Sleep(15 * time.Millisecond) }
 
@@ -284,6 +301,22 @@ func (x *Exec) vnd(name string, args []Value) Value {
 		return args[0]
 	case "vndSettle", "vndYield":
 		return nil
+	case "vndWatchdog":
+		returned := true
+		func() {
+			defer func() {
+				if r := recover(); r != nil {
+					if gp, ok := r.(*goPanic); ok && strings.HasPrefix(gp.Msg, "DEADLOCK") {
+						returned = false
+						x.mutexHeld = map[*Cell]int{} // the blocked goroutine keeps whatever it holds; the watchdog's caller goes on
+						return
+					}
+					panic(r)
+				}
+			}()
+			x.callValue(args[0], nil, nil)
+		}()
+		return c.BoolC(returned)
 	case "vndLoopPhis":
 		return x.i64(x.eng.loopPhis(strArg(args[0])))
 	case "vndRequire":
@@ -296,6 +329,12 @@ func (x *Exec) vnd(name string, args []Value) Value {
 		return x.i64(int(x.concretize(args[0].(*term.Term), "vndConcretize")))
 	case "vndAdvanceTime":
 		for _, ch := range x.timerChans {
+			if st, ok := ch.Tag.(*timerState); ok {
+				if st.active && !st.fired {
+					st.fired, st.pending = true, true
+				}
+				continue
+			}
 			ch.Ready = c.True()
 		}
 		x.timeAdvanced++
